@@ -147,7 +147,9 @@ class SimDisk:
             code, msg = self.ERRS[self.plan['err'] % len(self.ERRS)]
             self.w.fault('io_error', op=op, path=path, errno=code)
             self.w.probe('io_error_at_' + op)
-            return OSError(code, msg, path)
+            e = OSError(code, msg, path)
+            e._sim_transported = True      # injected on purpose: not a harness bug
+            return e
         return None
 
     def open(self, path, mode='r', *a, **kw):
@@ -158,7 +160,9 @@ class SimDisk:
         if e is not None:
             raise e
         if 'r' in mode and path not in self.files:
-            raise FileNotFoundError(errno.ENOENT, 'No such file or directory', path)
+            e = FileNotFoundError(errno.ENOENT, 'No such file or directory', path)
+            e._sim_transported = True
+            raise e
         if 'w' in mode:
             self.files[path] = ''     # O_TRUNC takes effect at open
         elif 'x' in mode:
@@ -436,7 +440,9 @@ class _Sink(io.StringIO):
         self.nwrites += 1
         if self.fail_at is not None and self.nwrites >= self.fail_at:
             self.w.fault('log_sink_error')
-            raise OSError(errno.EIO, 'Input/output error (log sink)')
+            e = OSError(errno.EIO, 'Input/output error (log sink)')
+            e._sim_transported = True
+            raise e
         return super().write(s)
 
 
